@@ -16,7 +16,7 @@ func XMultiSameMethod() *spec.Spec {
 
 // Extended returns the extended families (everything beyond the documented core combinations).
 func Extended(thorough bool) []*spec.Spec {
-	out := []*spec.Spec{XMultiSameMethod(), XCrossFile(), XTwoServiceFiles(), XTimestampCards(), XTimestampCardsFmt(), XEmptyOrders(), XSharedMethodHeader()}
+	out := []*spec.Spec{XMultiSameMethod(), XCrossFile(), XTwoServiceFiles(), XTimestampCards(), XTimestampCardsFmt(), XEmptyOrders(), XOneofSiblings(), XSharedMethodHeader()}
 	out = append(out, CtxSpecs()...)
 	out = append(out, RouteSpecs(thorough)...)
 	out = append(out, BindSpecs(thorough)...)
@@ -153,4 +153,23 @@ func XSharedMethodHeader() *spec.Spec {
 			spec.RPC("PingOrder", "OrderReq", "Out", "POST", "/orders/ping"),
 		).H(apiKey)}}
 	return withCell(spec.One("x_shared_method_header", f), "ext/unit=shared_method_header", "extended", "valid")
+}
+
+// XOneofSiblings: a discriminated oneof beside proto3 optional fields, a second plain oneof and a second discriminated oneof.
+func XOneofSiblings() *spec.Spec {
+	txt := func() *spec.Field { return spec.Msg("text", "TextContent").In("content") }
+	img := func() *spec.Field { return spec.Msg("image", "ImageContent").In("content") }
+	f := &spec.File{Messages: []*spec.Message{
+		spec.M("TextContent", spec.F("body", "string")),
+		spec.M("ImageContent", spec.F("url", "string"), spec.F("width", "int32")),
+		spec.M("FlatWithOptional", spec.F("id", "string"), spec.F("note", "string").Opt(), txt(), img(), spec.F("rank", "int32").Opt()).
+			WithOneof(&spec.Oneof{Name: "content", Config: true, Disc: "type", Flatten: true}),
+		spec.M("NestedWithOptional", spec.F("id", "string"), spec.F("note", "string").Opt(), txt(), img()).
+			WithOneof(&spec.Oneof{Name: "content", Config: true, Disc: "kind"}),
+		spec.M("FlatWithPlainOneof", spec.F("id", "string"), txt(), img(), spec.F("tag", "string").In("extra"), spec.F("code", "int32").In("extra")).
+			WithOneof(&spec.Oneof{Name: "content", Config: true, Disc: "type", Flatten: true}, &spec.Oneof{Name: "extra"}),
+		spec.M("NestedWithPlainOneof", spec.F("id", "string"), spec.F("tag", "string").In("extra"), spec.F("code", "int32").In("extra"), txt(), img()).
+			WithOneof(&spec.Oneof{Name: "extra"}, &spec.Oneof{Name: "content", Config: true, Disc: "kind"}),
+	}, Services: []*spec.Service{EchoService("OneofSiblingService", "FlatWithOptional", "NestedWithOptional", "FlatWithPlainOneof", "NestedWithPlainOneof")}}
+	return withCell(spec.One("x_oneof_siblings", f), "ext/unit=oneof_siblings", "extended", "valid", "codec")
 }
